@@ -120,7 +120,7 @@ def _swd_post(E, thr, wmin, wmax, include, res, NB, getE=lambda E, i: E[i], getR
     return out
 
 
-def _swd_unit(NB, include):
+def _swd_unit(NB, include, prop="C15"):
     name = "select_window_degen[NB=%d,%s]" % (NB, "include" if include else "exclude")
 
     def prove(U):
@@ -143,7 +143,7 @@ def _swd_unit(NB, include):
     def replay(mv, ob):
         E = [float(x) for x in mv.array1("E", NB)]
         return _swd_concrete(E, float(mv.get("thresh", 0.01)), float(mv.get("win_min", 0)), float(mv.get("win_max", 0)), include)
-    Unit("C15", name, prove=prove, replay=replay, scope="shape:NB=%d" % NB, expect_min=3,
+    Unit(prop, name, prove=prove, replay=replay, scope="shape:NB=%d" % NB, expect_min=3,
          tiers=("quick", "thorough") if NB <= 5 else ("thorough",))
 
 
